@@ -687,7 +687,8 @@ class ProxyDecref(ProxyIncref):
     variant = 'client'
     ignore_calls = ('threading.current_thread',)
     canaries = (('finalizer does not decrement', "dispatch(conn, None, 'decref', (token.id,))", "dispatch(conn, None, 'incref', (token.id,)) if False else None", ''),
-                ('finalizer decrements the token address instead of the ident', "dispatch(conn, None, 'decref', (token.id,))", "dispatch(conn, None, 'decref', (token.address,))", ''))
+                ('finalizer decrements the token address instead of the ident', "dispatch(conn, None, 'decref', (token.id,))", "dispatch(conn, None, 'decref', (token.address,))", ''),
+                ('closed connection left in the thread-local cache', '            del tls.connection', '            pass', 'thread-local connection invariant'))
 
     def setup(self, ex):
         st = super().setup(ex)
@@ -739,6 +740,10 @@ class ProxyDecref(ProxyIncref):
                 g = z3.And(z3.BoolVal(len(decs) == (0 if failed else 1) and len(incs) == 0 and len(conns) == 1), conns[0][1] == self.addr, decs[0][1] == self.tid if decs else z3.BoolVal(True)) if len(conns) == 1 else z3.BoolVal(False)
             ex.oblige(s, 'exit: exactly one decrement of the token\'s ident (directly when inside the server; else one request on a fresh connection to the token\'s server -- at most one, none only if that connection failed), '
                          'never an increment; the ident leaves the process\'s id set', z3.And(g, z3.BoolVal(len(disc) == 1), disc[0][1] == self.tid if disc else z3.BoolVal(False)))
+            closed = any(e_[0] == 'conn.close' for e_ in events)
+            ex.oblige(s, 'exit: [C14] thread-local connection invariant: a connection this finalizer closed is also REMOVED from the thread-local cache -- _callmethod uses a cached '
+                         'connection without checking it, so a closed one left behind makes every later call from this thread fail (OSError: handle is closed) instead of reconnecting',
+                      z3.BoolVal(not closed or not self.tls.has(s, 'connection')))
 
 
 class ProxyDecrefInServer(ProxyDecref):
